@@ -281,6 +281,9 @@ func (vc *FuncVC) objValue(env *Env, obj types.Object) *CVal {
 // debugValue finds the SSA value the source variable `name` holds at block b:
 // the closest DebugRef (not an address) in a block dominating b.
 func (vc *FuncVC) debugValue(name string, b *ssa.BasicBlock) *CVal {
+	if b == nil {
+		return nil
+	}
 	var best *ssa.DebugRef
 	for _, d := range vc.debugRefs[name] {
 		db := d.Block()
@@ -900,6 +903,20 @@ func (vc *FuncVC) evalCall(env *Env, x *ECall) *CVal {
 			ref = T(app("s_arr", v.T), SInt)
 		}
 		return &CVal{T: And(Not(Eq(ref, IntLit(0))), Not(vc.isAlloc(env.old, ref)))}
+	case "implements":
+		// implements(x, "pkg.Iface"): the dynamic type of x implements the interface (x non-nil)
+		v := arg(0)
+		s, ok := x.Args[1].(*EStr)
+		if !ok {
+			panic(fmt.Errorf("implements: interface name string expected"))
+		}
+		pkg := ""
+		if p := vc.scopePkg(env); p != nil {
+			pkg = p.Path()
+		}
+		t := vc.resolveType(s.V, pkg)
+		f := vc.declFun("implements", []string{SInt, SInt}, SBool)
+		return &CVal{T: And(Not(Eq(v.T, T("nil_iface", SIface))), T(app(f, T(app("tagOf", v.T), SInt), vc.ifaceID(t)), SBool))}
 	case "allocated":
 		v := arg(0)
 		ref := v.T
